@@ -12,9 +12,20 @@ one thread runs at any time, the order of turns is an input).  At program points
 for the interleaved run, big-step `run` for each thread's program) and judged by an oracle that does
 not use the model: a direct re-computation of "explicit > innermost > outer > default", "state after
 a block is the state before", "my configuration only changes by my own steps".
+
+General programs (stream `unbalanced`, and the corpus): besides `with` blocks a thread makes context objects by a PLAIN CALL
+(`cm_k = parallel_config(...)` / `parallel_backend(...)`, never entered), calls `cm_k.unregister()` on any object it has made
+so far (any order, twice, never; also on the object of a `with` block, inside or after the block), raises inside all of that, and
+STARTS THREADS (plain `threading.Thread`, a thread whose target runs in `contextvars.copy_context()`, `asyncio.to_thread`) that run
+a program of their own.  Every step is a request to the model's step machine (`create` / `unreg k` / `spawn u kind`), the
+configuration is compared after every step, and the whole program of every thread is compared with the big-step `xrun`.
+The oracle for these: after the `with` block of object k exits, and after `cm_k.unregister()`, the configuration is - value by
+value, by identity - the one read just before k was made; a started thread reads the defaults.
 """
 
+import asyncio
 import contextlib
+import contextvars
 import io
 import itertools
 import json
@@ -43,11 +54,25 @@ REQUIRED_THEOREMS = [
     "C17.sharedmem_unrepaired_counterexample",
     "C17.n_jobs_unrepaired_counterexample",
     "C17.n_jobs_fallback_counterexample",
+    "C17.xrun_ops",
+    "C17.exit_restores_whatever_the_body_left",
+    "C17.unreg_exact",
+    "C17.unregister_is_restore",
+    "C17.unregister_out_of_order",
+    "C17.balanced_program_restores",
+    "C17.new_thread_starts_from_defaults",
+    "C17.other_threads_unaffected",
+    "C17.gab_agrees_with_parallel",
+    "C17.guarded_unregister_counterexample",
+    "C17.context_var_counterexample",
+    "C17.gab_literal_defaults_counterexample",
 ]
 TRUSTED_EXTRA = [
     "modelled, not verified: threading.local gives every thread its own attribute namespace (the model's Global is a "
     "function from thread ids to states); the `with` statement calls __exit__ exactly once, LIFO, for normal and "
-    "exceptional exit",
+    "exceptional exit; a started thread (threading.Thread, a thread running in contextvars.copy_context(), asyncio.to_thread) "
+    "has an empty threading.local namespace",
+    "outside the model (never generated): a context object made by one thread and unregistered by another",
     "the model is the code WITH fixes/F21-*.diff and fixes/F22-*.diff applied; on a tree without them the check reports "
     "the two defects (oracle signatures sharedmem:* and n_jobs:context-value-dropped-*)",
     "outside the model (never generated): multiprocessing disabled (mp is None), the dask backend, multiprocessing "
@@ -175,11 +200,37 @@ def gen_args(rng, malformed=False, explicit=False):
     return d
 
 
-def gen_stmts(rng, depth, maxd, malformed, in_try):
-    n = rng.choice([1, 1, 2, 2, 3])
+SPAWN_KINDS = ["plain", "copied", "to_thread"]
+
+
+def gen_ctx_args(rng, malformed):
+    if rng.random() < 0.3:
+        a = {"backend": gen_backend(rng, malformed and rng.random() < 0.2)}
+        if rng.random() < 0.5:
+            a["n_jobs"] = rng.choice(VALS["n_jobs"])
+        return "backend", a
+    return "config", gen_args(rng, malformed)
+
+
+def gen_stmts(rng, depth, maxd, malformed, in_try, ext=False, spawn_depth=0):
+    n = rng.choice([1, 1, 2, 2, 3] if not ext else [1, 2, 2, 3, 3, 4])
     out = []
     for _ in range(n):
         r = rng.random()
+        if ext and rng.random() < 0.45:
+            # general programs: objects made by a plain call, unregister() by hand, started threads
+            q = rng.random()
+            if q < 0.42:
+                kind, a = gen_ctx_args(rng, malformed)
+                out.append({"op": "create", "kind": kind, "a": a})
+            elif q < 0.84:
+                out.append({"op": "unreg", "k": rng.randrange(64)})
+            elif spawn_depth < 2:
+                out.append({"op": "spawn", "kind": rng.choice(SPAWN_KINDS),
+                            "body": gen_stmts(rng, 0, min(maxd, 2), malformed, False, ext, spawn_depth + 1)})
+            else:
+                out.append({"op": "par", "e": gen_args(rng, malformed, explicit=True)})
+            continue
         if depth < maxd and r < 0.45:
             if rng.random() < 0.2:
                 a = {"backend": gen_backend(rng, malformed and rng.random() < 0.2)}
@@ -189,7 +240,7 @@ def gen_stmts(rng, depth, maxd, malformed, in_try):
             else:
                 a = gen_args(rng, malformed)
                 kind = "config"
-            out.append({"op": "block", "kind": kind, "a": a, "body": gen_stmts(rng, depth + 1, maxd, malformed, in_try)})
+            out.append({"op": "block", "kind": kind, "a": a, "body": gen_stmts(rng, depth + 1, maxd, malformed, in_try, ext, spawn_depth)})
         elif r < 0.78:
             out.append({"op": "par", "e": gen_args(rng, malformed, explicit=True)})
         elif r < 0.88:
@@ -199,17 +250,17 @@ def gen_stmts(rng, depth, maxd, malformed, in_try):
                     a[k] = rng.choice(BAD[k]) if (malformed and k in BAD and rng.random() < 0.3) else rng.choice(VALS[k])
             out.append({"op": "gab", "a": a})
         else:
-            out.append({"op": "try", "body": gen_stmts(rng, depth, maxd, malformed, True)})
+            out.append({"op": "try", "body": gen_stmts(rng, depth, maxd, malformed, True, ext, spawn_depth)})
     if rng.random() < (0.3 if in_try or depth > 0 else 0.08):
         out.append({"op": "raise"})
     return out
 
 
-def gen_case(rng, malformed=False, maxd=4):
+def gen_case(rng, malformed=False, maxd=4, ext=False):
     nthreads = rng.choice([1, 1, 2, 2, 3])
     return {
         "default": rng.choice("LLLLLTSM"),
-        "threads": [gen_stmts(rng, 0, maxd, malformed, False) for _ in range(nthreads)],
+        "threads": [gen_stmts(rng, 0, maxd if not ext else 3, malformed, False, ext) for _ in range(nthreads)],
         "sched_seed": rng.randrange(1 << 30),
     }
 
@@ -239,12 +290,55 @@ def enc_prog(stmts):
     raise core.InfraError(f"statement {st!r}")
 
 
+def is_tree(stmts):
+    """Only `with` blocks (the programs of the tree semantics `run`)."""
+    for st in stmts:
+        if st["op"] in ("create", "unreg", "spawn"):
+            return False
+        if st["op"] in ("block", "try") and not is_tree(st["body"]):
+            return False
+    return True
+
+
+def enc_xprog(stmts, resolved):
+    """General program of ONE thread for the big-step `xrun`.  `unreg` names the object by the index the run resolved it to
+    (`resolved`: id(statement) -> index, or None when the thread had made no object yet: then the statement is no step at all);
+    a statement the run never reached is encoded with index 0 (it is not reached in the model either).  Starting a thread is
+    not a step that changes the starter: it is left out here (the started thread's program is compared on its own)."""
+    if not stmts:
+        return ["D"]
+    st, rest = stmts[0], stmts[1:]
+    op = st["op"]
+    if op == "par":
+        return ["P"] + slots(st["e"]) + enc_xprog(rest, resolved)
+    if op == "gab":
+        a = st["a"]
+        return ["G"] + [tok(a[k]) if k in a else "_" for k in ("prefer", "require", "verbose")] + enc_xprog(rest, resolved)
+    if op in ("block", "create"):
+        a = backend_block_args(st["a"]) if st["kind"] == "backend" else st["a"]
+        if op == "block":
+            return ["B"] + slots(a) + enc_xprog(st["body"], resolved) + enc_xprog(rest, resolved)
+        return ["C"] + slots(a) + enc_xprog(rest, resolved)
+    if op == "unreg":
+        idx = resolved.get(id(st), 0)
+        if idx is None:
+            return enc_xprog(rest, resolved)
+        return ["U", str(idx)] + enc_xprog(rest, resolved)
+    if op == "spawn":
+        return enc_xprog(rest, resolved)
+    if op == "raise":
+        return ["R"]
+    if op == "try":
+        return ["T"] + enc_xprog(st["body"], resolved) + enc_xprog(rest, resolved)
+    raise core.InfraError(f"statement {st!r}")
+
+
 def depth_of(stmts):
     d = 0
     for st in stmts:
         if st["op"] == "block":
             d = max(d, 1 + depth_of(st["body"]))
-        elif st["op"] == "try":
+        elif st["op"] in ("try", "spawn"):
             d = max(d, depth_of(st["body"]))
     return d
 
@@ -256,8 +350,22 @@ def count_ops(stmts):
             n += 1
         elif st["op"] == "block":
             n += 2 + count_ops(st["body"])
+        elif st["op"] in ("create", "unreg"):
+            n += 1
+        elif st["op"] == "spawn":
+            n += 1 + count_ops(st["body"])
         elif st["op"] == "try":
             n += count_ops(st["body"])
+    return n
+
+
+def count_kind(stmts, kinds):
+    n = 0
+    for st in stmts:
+        if st["op"] in kinds:
+            n += 1
+        if "body" in st:
+            n += count_kind(st["body"], kinds)
     return n
 
 
@@ -304,16 +412,35 @@ def letter_of_backend_value(v):
 
 
 class ThreadOracle:
-    """Per-thread book-keeping of the oracle: the blocks this thread is inside (arguments as written)."""
+    """Per-thread book-keeping of the oracle (no model): the settings in force, as the program wrote them (`cur`), and for every
+    context object the thread has made - `with` block or plain call - the settings in force just before (`snaps`) and the very
+    values the configuration held then (`raws`, compared by identity).  Making an object puts its arguments on top of `cur`;
+    its `__exit__` / `unregister()` puts `snaps[k]` back, whatever happened in between."""
 
     def __init__(self):
-        self.stack = []  # dicts of the arguments of the entered blocks, outermost first
+        self.cur = {}
+        self.objs = []
+        self.snaps = []
+        self.raws = []
+        self.args = []
 
     def innermost(self, k):
-        for a in reversed(self.stack):
-            if k in a:
-                return True, a[k]
-        return False, None
+        return (k in self.cur), self.cur.get(k)
+
+    @property
+    def stack(self):  # for the reports
+        return [dict(self.cur)]
+
+    def made(self, cm, eff, raw_before):
+        self.objs.append(cm)
+        self.snaps.append(dict(self.cur))
+        self.raws.append(raw_before)
+        self.args.append(eff)
+        self.cur = dict(self.cur, **eff)
+        return len(self.objs) - 1
+
+    def unregistered(self, k):
+        self.cur = dict(self.snaps[k])
 
 
 # ----------------------------------------------------------------------------- running a case on the implementation
@@ -329,9 +456,12 @@ def run_case(jp, case, res, desc_extra=None):
     log = []  # (request line, impl reply) in global order
     defaults = {k: jp.default_parallel_config[k].default_value for k in KEYS}
     dflt_letter = case["default"]
-    per_thread = [dict(letters=[], raised=False, final=None) for _ in range(nthreads)]
-    oracles = [ThreadOracle() for _ in range(nthreads)]
-    last_seen = [None] * nthreads  # raw config objects at the end of the thread's previous step
+    per_thread = {t: dict(letters=[], raised=False, final=None, prog=case["threads"][t]) for t in range(nthreads)}
+    oracles = {t: ThreadOracle() for t in range(nthreads)}
+    last_seen = {t: None for t in range(nthreads)}  # raw config objects at the end of the thread's previous step
+    started_by = {}  # thread id of a started thread -> how it was started
+    unreg_idx = {}  # id(unreg statement) -> index of the object it named in this run (None: no object yet, no step)
+    next_tid = [nthreads]
     fails = []
 
     def fail(sig, detail):
@@ -387,38 +517,6 @@ def run_case(jp, case, res, desc_extra=None):
         if after != base:
             fail("scope:settings-survive-the-block", dict(after=after, defaults=base))
 
-    def unbalanced_probe():
-        """"on exit - normal or by exception, at any nesting depth - the previous settings are back": also when the body of
-        the block left ANOTHER configuration active (parallel_backend(...) / parallel_config(...) used as a plain call, not
-        unregistered - by design or because the code raised before it could)."""
-        def observe():
-            p = jp.Parallel()
-            return (type(p._backend).__name__, p.n_jobs, p.verbose)
-
-        base = observe()
-        for depth, by_exc, inner in [(1, False, "backend"), (2, False, "config"), (2, True, "backend"), (3, True, "config")]:
-            try:
-                with contextlib.ExitStack() as st:
-                    for d in range(depth):
-                        st.enter_context(jp.parallel_config(n_jobs=2 + d, verbose=5 + d))
-                    if inner == "backend":
-                        jp.parallel_backend("threading", n_jobs=4)      # never unregistered
-                    else:
-                        jp.parallel_config(backend="threading", verbose=9)  # never unregistered
-                    if by_exc:
-                        raise KeyError("leave by exception")
-            except KeyError:
-                pass
-            after = observe()
-            if after != base:
-                fail("scope:previous-settings-not-back-after-a-block-whose-body-left-a-configuration-active",
-                     dict(depth=depth, by_exception=by_exc, inner=inner, after=after, before=base))
-                # put the thread back for the rest of the case
-                st_ = getattr(jp, "_backend", None)
-                if isinstance(st_, threading.local) and hasattr(st_, "config"):
-                    del st_.config
-                break
-
     def gab_probe():
         """The public observation point get_active_backend() with no argument sees what a Parallel() made at the same place
         gets: the context's hints and constraints apply (require='sharedmem' always yields a thread-based backend)."""
@@ -437,16 +535,19 @@ def run_case(jp, case, res, desc_extra=None):
                 # (n_jobs None = "not set anywhere": Parallel resolves it to its default, get_active_backend reports None)
                 fail("precedence:get_active_backend-disagrees-with-Parallel", dict(context=kw, got=got, parallel_gets=want))
 
-    foreign_thread_probe()
-    unbalanced_probe()
-    gab_probe()
+    if case.get("probes"):  # the two hand-written probes of round 4, kept as corpus (one case of the regression stream)
+        foreign_thread_probe()
+        gab_probe()
 
     def check_frame(tid):
         """My configuration is what I left it at (no other thread's step changed it)."""
         now = raw_cfg()
         if last_seen[tid] is None:
             if any(v is not jp.default_parallel_config[k] for v, k in zip(now, KEYS)):
-                fail("thread:new-thread-sees-foreign-settings", dict(tid=tid, cfg=cfg_tokens()))
+                if tid in started_by:
+                    fail("thread:other-thread-sees-settings-of-the-entering-thread", dict(tid=tid, how=started_by[tid], cfg=cfg_tokens()))
+                else:
+                    fail("thread:new-thread-sees-foreign-settings", dict(tid=tid, cfg=cfg_tokens()))
         elif any(a is not b for a, b in zip(now, last_seen[tid])):
             fail("thread:config-changed-by-another-thread", dict(tid=tid, cfg=cfg_tokens()))
 
@@ -621,6 +722,27 @@ def run_case(jp, case, res, desc_extra=None):
             reply = " ".join(["ok", type(b).__name__, "N" if b.nesting_level is None else str(b.nesting_level), tok_live(jp, n, "n_jobs")])
             if not a:
                 orc = oracles[tid]
+                # "get_active_backend() sees what a Parallel() made at the same place gets"
+                try:
+                    with contextlib.redirect_stdout(io.StringIO()), warnings.catch_warnings():
+                        warnings.simplefilter("ignore")
+                        p = jp.Parallel()
+                except Exception:  # noqa: BLE001 - a context that Parallel rejects is judged at the par steps
+                    p = None
+                if p is not None:
+                    got, want = (type(b).__name__, repr(n)), (type(p._backend).__name__, p.n_jobs)
+                    has_r, rq = orc.innermost("require")
+                    try:
+                        n_ok = n is None or int(n) == p.n_jobs
+                    except (TypeError, ValueError):
+                        n_ok = False
+                    if (rq if has_r else defaults["require"]) == "sharedmem" and not getattr(b, "supports_sharedmem", False):
+                        fail("sharedmem:get_active_backend-reports-a-backend-without-shared-memory",
+                             dict(tid=tid, context=orc.stack, got=got, parallel_gets=want))
+                    elif got[0] != want[0] or not n_ok:
+                        # (n_jobs None = "not set anywhere": Parallel resolves it to its default, get_active_backend reports None)
+                        fail("precedence:get_active_backend-disagrees-with-Parallel",
+                             dict(tid=tid, context=orc.stack, got=got, parallel_gets=want))
                 has_cb, cb = orc.innermost("backend")
                 has_cr, cr = orc.innermost("require")
                 has_cp, cp = orc.innermost("prefer")
@@ -635,17 +757,99 @@ def run_case(jp, case, res, desc_extra=None):
                         fail("active-backend:not-the-innermost-context-n_jobs", dict(tid=tid, stack=list(orc.stack), got=repr(n), want=wn))
         log.append((f"{tid} gab " + " ".join(tok(a[k]) if k in a else "_" for k in ("prefer", "require", "verbose")), reply))
 
+    def sync(tid):
+        if tid < nthreads:  # a started thread runs while its starter holds the turn
+            sched.sync(tid)
+
+    def construct(tid, st, verb):
+        """`parallel_config(...)` / `parallel_backend(...)` is called (one step: `enter` for a `with` block, `create` for a plain
+        call).  Returns (object, its index for this thread, the raw configuration before)."""
+        sync(tid)
+        check_frame(tid)
+        before = raw_cfg()
+        per_thread[tid]["letters"].append("E" if verb == "enter" else "C")
+        a = st["a"]
+        if st["kind"] == "backend":
+            req = f"{tid} {verb}b {tok(a['backend'])} " + (tok(a["n_jobs"]) if "n_jobs" in a else "_")
+            eff = backend_block_args(a)
+        else:
+            req = f"{tid} {verb} " + " ".join(slots(a))
+            eff = a
+        try:
+            with warnings.catch_warnings():
+                warnings.simplefilter("ignore")
+                if st["kind"] == "backend":
+                    kw = {k: mat(jp, v) for k, v in a.items() if k != "backend"}
+                    cm = jp.parallel_backend(mat(jp, a["backend"]), **kw)
+                else:
+                    cm = jp.parallel_config(**{k: mat(jp, v) for k, v in a.items()})
+        except Exception as e:  # noqa: BLE001
+            log.append((req, "raises " + type(e).__name__))
+            if any(x is not y for x, y in zip(raw_cfg(), before)):
+                fail("scope:failed-constructor-changed-config", dict(tid=tid, args=a))
+            if letter_of_backend_value(a.get("backend", "threading")) is not None:
+                fail("spurious-error:context-constructor-" + type(e).__name__, dict(tid=tid, args=a))
+            end_step(tid)
+            raise
+        log.append((req, "ok"))
+        k = oracles[tid].made(cm, eff, before)
+        check_content(tid)
+        end_step(tid)
+        return cm, k, before
+
+    def run_started(parent, st):
+        """`parent` starts a thread that runs `st["body"]` to its end (the parent keeps the turn and joins it)."""
+        u = next_tid[0]
+        next_tid[0] += 1
+        kind = st["kind"]
+        started_by[u] = kind
+        per_thread[u] = dict(letters=[], raised=False, final=None, prog=st["body"])
+        oracles[u] = ThreadOracle()
+        last_seen[u] = None
+        log.append((f"{parent} spawn {u} {kind}", "ok"))
+        box = []
+
+        def child():
+            try:
+                check_frame(u)
+                end_step(u)
+                try:
+                    exec_stmts(u, st["body"])
+                except core.InfraError:
+                    raise
+                except Exception:  # noqa: BLE001 - Boom or a constructor's exception ends the thread
+                    per_thread[u]["raised"] = True
+                per_thread[u]["final"] = cfg_tokens()
+            except BaseException as e:  # noqa: BLE001
+                box.append(e)
+
+        if kind == "plain":
+            th = threading.Thread(target=child, daemon=True)
+            th.start(); th.join(120)
+        elif kind == "copied":
+            cctx = contextvars.copy_context()
+            th = threading.Thread(target=lambda: cctx.run(child), daemon=True)
+            th.start(); th.join(120)
+        elif kind == "to_thread":
+            asyncio.run(asyncio.to_thread(child))
+        else:
+            raise core.InfraError(f"spawn kind {kind!r}")
+        if box:
+            raise box[0] if isinstance(box[0], core.InfraError) else core.InfraError(f"started thread crashed: {box[0]!r}")
+        if per_thread[u]["final"] is None:
+            raise core.InfraError("started thread did not finish")
+
     def exec_stmts(tid, stmts):
         for st in stmts:
             op = st["op"]
             if op == "par":
-                sched.sync(tid)
+                sync(tid)
                 check_frame(tid)
                 per_thread[tid]["letters"].append("P")
                 do_par(tid, st["e"])
                 end_step(tid, with_cfg=False)
             elif op == "gab":
-                sched.sync(tid)
+                sync(tid)
                 check_frame(tid)
                 per_thread[tid]["letters"].append("G")
                 do_gab(tid, st["a"])
@@ -657,41 +861,41 @@ def run_case(jp, case, res, desc_extra=None):
                     exec_stmts(tid, st["body"])
                 except Boom:
                     pass
+                except core.InfraError:
+                    raise
                 except Exception:  # the constructor of a block raised: also an exception the program catches
                     pass
-            elif op == "block":
-                sched.sync(tid)
+            elif op == "create":
+                construct(tid, st, "create")
+            elif op == "unreg":
+                orc = oracles[tid]
+                if not orc.objs:
+                    unreg_idx[id(st)] = None  # nothing to unregister yet: not a step
+                    continue
+                k = st["k"] % len(orc.objs)
+                unreg_idx[id(st)] = k
+                sync(tid)
                 check_frame(tid)
-                before = raw_cfg()
-                per_thread[tid]["letters"].append("E")
-                a = st["a"]
-                if st["kind"] == "backend":
-                    req = f"{tid} enterb {tok(a['backend'])} " + (tok(a["n_jobs"]) if "n_jobs" in a else "_")
-                    eff = backend_block_args(a)
-                else:
-                    req = f"{tid} enter " + " ".join(slots(a))
-                    eff = a
-                try:
-                    with warnings.catch_warnings():
-                        warnings.simplefilter("ignore")
-                        if st["kind"] == "backend":
-                            kw = {k: mat(jp, v) for k, v in a.items() if k != "backend"}
-                            cm = jp.parallel_backend(mat(jp, a["backend"]), **kw)
-                        else:
-                            cm = jp.parallel_config(**{k: mat(jp, v) for k, v in a.items()})
-                except Exception as e:  # noqa: BLE001
-                    log.append((req, "raises " + type(e).__name__))
-                    if any(x is not y for x, y in zip(raw_cfg(), before)):
-                        fail("scope:failed-constructor-changed-config", dict(tid=tid, args=a))
-                    if letter_of_backend_value(a.get("backend", "threading")) is not None:
-                        fail("spurious-error:context-constructor-" + type(e).__name__, dict(tid=tid, args=a))
-                    end_step(tid)
-                    raise
-                log.append((req, "ok"))
-                oracles[tid].stack.append(eff)
+                per_thread[tid]["letters"].append("U")
+                orc.objs[k].unregister()
+                log.append((f"{tid} unreg {k}", "ok"))
+                orc.unregistered(k)
+                if any(x is not y for x, y in zip(raw_cfg(), orc.raws[k])):
+                    fail("scope:unregister-did-not-restore-the-configuration-saved-at-creation",
+                         dict(tid=tid, object=k, args=orc.args[k], got=cfg_tokens()))
                 check_content(tid)
                 end_step(tid)
+            elif op == "spawn":
+                sync(tid)
+                check_frame(tid)
+                run_started(tid, st)
+                check_frame(tid)  # nothing the started thread did shows here
+                end_step(tid)
+            elif op == "block":
+                cm, k, before = construct(tid, st, "enter")
+                entered = raw_cfg()
                 how = "return"
+                left_active = False
                 try:
                     with cm:
                         try:
@@ -700,15 +904,20 @@ def run_case(jp, case, res, desc_extra=None):
                             how = "exception"
                             raise
                         finally:
-                            sched.sync(tid)  # the exit is a step of its own
+                            sync(tid)  # the exit is a step of its own
                             check_frame(tid)
+                            left_active = any(x is not y for x, y in zip(raw_cfg(), entered))
                 finally:
                     per_thread[tid]["letters"].append("X")
-                    oracles[tid].stack.pop()
+                    oracles[tid].unregistered(k)
                     log.append((f"{tid} exit", "ok"))
                     after = raw_cfg()
                     if any(x is not y for x, y in zip(after, before)):
-                        fail("scope:config-not-restored-after-block:" + how, dict(tid=tid, args=a, got=cfg_tokens()))
+                        if left_active:
+                            fail("scope:previous-settings-not-back-after-a-block-whose-body-left-a-configuration-active",
+                                 dict(tid=tid, args=st["a"], how=how, got=cfg_tokens()))
+                        else:
+                            fail("scope:config-not-restored-after-block:" + how, dict(tid=tid, args=st["a"], got=cfg_tokens()))
                     check_content(tid)
                     end_step(tid)
             else:
@@ -769,6 +978,8 @@ def run_case(jp, case, res, desc_extra=None):
     for sig, detail in fails:
         res.fail(sig, dict(case=case, **(desc_extra or {})), detail)
     reset = "reset " + dflt_letter + " " + " ".join(tok_default(defaults[k]) for k in KEYS)
+    for pt in per_thread.values():
+        pt["xprog"] = enc_xprog(pt["prog"], unreg_idx)
     return reset, log, per_thread
 
 
@@ -788,13 +999,17 @@ def _explore(ctx, res, cases, stream, jp):
     for ci, case in enumerate(cases):
         reset, log, per_thread = run_case(jp, case, res)
         res.evaluations += 1
-        nops = sum(count_ops(p) for p in case["threads"])
         d = max(depth_of(p) for p in case["threads"])
+        for kind in ("create", "unreg", "spawn"):
+            n_k = sum(count_kind(p, (kind,)) for p in case["threads"])
+            if n_k:
+                res.count(f"{stream}:has-{kind}")
+        res.count(f"{stream}:threads-started", len(per_thread) - len(case["threads"]))
         res.count(f"{stream}:threads={len(case['threads'])}")
         res.count(f"{stream}:depth={d}")
         res.count(f"{stream}:default={case['default']}")
         res.count(f"{stream}:ops", len(log))
-        if d >= 1 and any(rq.split()[1] == "par" for rq, _ in log):
+        if (d >= 1 or any(rq.split()[1] in ("create", "createb") for rq, _ in log)) and any(rq.split()[1] == "par" for rq, _ in log):
             res.nontrivial.add(json.dumps(case["threads"], sort_keys=True) + case["default"])
         res.sample(dict(stream=stream, case=case, first_steps=log[:6]))
         requests.append(reset)
@@ -810,11 +1025,17 @@ def _explore(ctx, res, cases, stream, jp):
             elif kind == "par":
                 res.count(f"{stream}:par:ok:" + rp.split()[1])
         # big-step semantics of each thread's program, against that thread's own projection
-        for t, prog in enumerate(case["threads"]):
-            requests.append("prog " + " ".join(["_"] * 8) + " " + " ".join(enc_prog(prog)))
+        # (every thread, also the started ones: they begin in the default configuration)
+        for t in sorted(per_thread):
             pt = per_thread[t]
-            expected.append("cfg " + " ".join(pt["final"] or ["?"]) + " " + ("1" if pt["raised"] else "0") + " " + "".join(pt["letters"]))
-            where.append((ci, f"prog thread {t}"))
+            exp = "cfg " + " ".join(pt["final"] or ["?"]) + " " + ("1" if pt["raised"] else "0") + " " + "".join(pt["letters"])
+            if is_tree(pt["prog"]):
+                requests.append("prog " + " ".join(["_"] * 8) + " " + " ".join(enc_prog(pt["prog"])))
+                expected.append(exp)
+                where.append((ci, f"prog thread {t}"))
+            requests.append("xprog " + " ".join(pt["xprog"]))
+            expected.append(exp)
+            where.append((ci, f"xprog thread {t}"))
     replies = ctx.driver().run(requests)
     bad_cases = set()
     for (ci, rq), exp, got in zip(where, expected, replies):
@@ -892,13 +1113,65 @@ REGRESSION = [
 ]
 
 
+def _par():
+    return {"op": "par", "e": {}}
+
+
+def _gab():
+    return {"op": "gab", "a": {}}
+
+
+def _unbalanced_corpus():
+    """The round-4 `unbalanced_probe` as programs: `depth` nested blocks whose innermost body makes an object by a plain call and
+    never unregisters it, left normally or by an exception; afterwards the thread must be back at the defaults."""
+    out = []
+    for depth, by_exc, inner in [(1, False, "backend"), (2, False, "config"), (2, True, "backend"), (3, True, "config")]:
+        if inner == "backend":
+            body = [{"op": "create", "kind": "backend", "a": {"backend": "threading", "n_jobs": 4}}]
+        else:
+            body = [{"op": "create", "kind": "config", "a": {"backend": "threading", "verbose": 9}}]
+        body += [_par(), _gab()] + ([{"op": "raise"}] if by_exc else [])
+        for d in reversed(range(depth)):
+            body = [{"op": "block", "kind": "config", "a": {"n_jobs": 2 + d, "verbose": 5 + d}, "body": body}, _par()]
+        out.append({"default": "L", "threads": [[_par(), {"op": "try", "body": body}, _par(), _gab()]], "sched_seed": 10 + depth})
+    return out
+
+
+REGRESSION += _unbalanced_corpus() + [
+    # the two hand-written probes of round 4 (foreign threads, get_active_backend vs Parallel)
+    {"default": "L", "probes": True, "threads": [[_par()]], "sched_seed": 20},
+    # unregister() out of order, twice, on the object of a `with` block inside the block and after it
+    {"default": "L", "threads": [[
+        {"op": "create", "kind": "config", "a": {"verbose": 7}}, {"op": "create", "kind": "config", "a": {"n_jobs": 3}},
+        {"op": "unreg", "k": 0}, _par(), {"op": "unreg", "k": 1}, _par(), {"op": "unreg", "k": 1}, {"op": "unreg", "k": 0}, _par(),
+        {"op": "block", "kind": "backend", "a": {"backend": "threading", "n_jobs": 2},
+         "body": [_par(), {"op": "unreg", "k": 2}, _par(), {"op": "create", "kind": "config", "a": {"prefer": "threads"}}, _gab()]},
+        _par(), {"op": "unreg", "k": 2}, {"op": "unreg", "k": 3}, _par(), {"op": "unreg", "k": 0}, _gab()]], "sched_seed": 21},
+    # threads started inside a block, in every way; what they make and leave registered stays theirs
+    {"default": "L", "threads": [[
+        {"op": "block", "kind": "config", "a": {"backend": "threading", "n_jobs": 3, "verbose": 7}, "body": [
+            {"op": "spawn", "kind": kind, "body": [_par(), _gab(), {"op": "create", "kind": "config", "a": {"n_jobs": 5, "require": "sharedmem"}},
+                                                     _par(), {"op": "spawn", "kind": "copied", "body": [_par(), _gab()]}]}
+            for kind in SPAWN_KINDS] + [_par(), _gab()]},
+        _par()],
+        [{"op": "create", "kind": "backend", "a": {"backend": "loky"}}, {"op": "spawn", "kind": "to_thread", "body": [_gab(), _par()]}, _par()]],
+     "sched_seed": 22},
+    # get_active_backend() and Parallel() at the same place, under hints and constraints (the round-4 gab probe as a program)
+    {"default": "L", "threads": [[
+        {"op": "block", "kind": "config", "a": kw, "body": [_gab(), _par()]}
+        for kw in ({"backend": "loky", "n_jobs": 4, "require": "sharedmem"}, {"prefer": "threads"}, {"require": "sharedmem"},
+                   {"backend": "threading", "n_jobs": 3}, {"prefer": "processes", "n_jobs": 2})]], "sched_seed": 23},
+]
+
+
 def run(ctx):
     joblib = core.use_repo()
     import joblib.parallel as jp
 
     res = Result()
     res.rule = ("programs = per-thread trees of with-blocks (depth <= 4, 1-3 statements per level, 1-3 threads, random turn order); "
-                "non-trivial = at least one block and one Parallel construction; distinct by (programs, DEFAULT_BACKEND)")
+                "stream `unbalanced`: the same plus objects made by plain calls, unregister() of any object at any time, threads "
+                "started in three ways; non-trivial = at least one block and one Parallel construction; distinct by (programs, DEFAULT_BACKEND)")
     res.assumptions = ["threading.local semantics; `with` calls __exit__ once, LIFO", "fresh backend instances per use",
                        "model = code with fixes F21 + F22"]
     if ctx.replay:
@@ -915,6 +1188,9 @@ def run(ctx):
     _explore(ctx, res, [gen_case(rng) for _ in range(n)], "random", jp)
     rng = ctx.rng("malformed")
     _explore(ctx, res, [gen_case(rng, malformed=True) for _ in range(n // 3)], "malformed", jp)
+    rng = ctx.rng("unbalanced")
+    m = 4000 if ctx.thorough else 450
+    _explore(ctx, res, [gen_case(rng, malformed=(i % 5 == 4), ext=True) for i in range(m)], "unbalanced", jp)
     return res
 
 
@@ -933,7 +1209,7 @@ def search(ctx, res):
                 c["sched_seed"] = rng.randrange(1 << 30)
                 c.pop("turns", None)
                 cases.append(c)
-    cases += [gen_case(rng, malformed=(i % 4 == 0)) for i in range(7000)]
+    cases += [gen_case(rng, malformed=(i % 4 == 0), ext=(i % 2 == 1)) for i in range(7000)]
     _explore(ctx, out, cases, "search", jp)
     _explore(ctx, out, list(exhaustive_cases(True)), "search-exhaustive", jp)
     return out
